@@ -1261,7 +1261,8 @@ void fraction_free_gauss_jordan_solve(const DenseMatrix &A,
             while (p < col and eq(*A_.m_[p * col + i], *zero)) {
                 p++;
             }
-            SYMENGINE_ASSERT(p != col);
+            if (p == col)
+                throw SymEngineException("Matrix is rank deficient");
             if (p != i) {
                 // pivot A
                 for (k = i; k < col; k++) {
